@@ -4,6 +4,7 @@ import Ubx.Model.Helpers
 import Ubx.Generated.Tables
 import Ubx.Model.PyHosts
 import Ubx.Model.PyReaderHosts
+import Ubx.Model.PyConfigHosts
 /-!
 # Line-protocol driver: one operation per input line, one answer per output line.
 The Python harness (tools/harness) sends the same operations to the real pyubx2 and diffs.
@@ -279,6 +280,12 @@ def pylReadp {σ : Type} (S : Src σ) (s0 : σ) (cfg : RCfg) (O : Oracle String)
   s!"items=[{" ".intercalate items}] calls=[{calls}] raised={raised} crashed={crashed}"
 
 
+def pylCfgOut (r : Py.X Py.CO (Py.V Py.CO)) : String :=
+  match r with
+  | .ok (.host (.msg m)) => resDump (.ok m)
+  | .ok _ => "bad-value"
+  | .error e => excStr e
+
 def handlePyl (toks : List String) : String :=
   match toks with
   | ["pyl-cksum", h] =>
@@ -324,6 +331,20 @@ def handlePyl (toks : List String) : String :=
          let lens := (((src.drop 5).toString.replace "!" "").splitOn ",").filter (· ≠ "") |>.map toNatD
          pylReadp sockSrc (sockInit (splitChunks s lens)) cfg O (toNatD q) budget
      | none => "bad-op")
+  | "pyl-cfgset" :: layers :: txn :: rest =>
+    let items := rest.map (fun t => match t.splitOn "=" with
+      | [k, v] => (parseVal v).map (fun pv => (parseCfgKey k, pv))
+      | _ => none)
+    if items.all Option.isSome then
+      pylCfgOut (Py.runFn (Py.cfgHost Gen.ctx) pylFuel Gen.Code.fn_UBXMessage_config_set
+        [.int (toIntD layers), .int (toIntD txn), .tuple ((items.filterMap (fun x => x)).map Py.encItem)] ()).1
+    else "bad-op"
+  | "pyl-cfgdel" :: layers :: txn :: rest =>
+    pylCfgOut (Py.runFn (Py.cfgHost Gen.ctx) pylFuel Gen.Code.fn_UBXMessage_config_del
+      [.int (toIntD layers), .int (toIntD txn), .tuple ((rest.map parseCfgKey).map Py.encKey)] ()).1
+  | "pyl-cfgpoll" :: layer :: pos :: rest =>
+    pylCfgOut (Py.runFn (Py.cfgHost Gen.ctx) pylFuel Gen.Code.fn_UBXMessage_config_poll
+      [.int (toIntD layer), .int (toIntD pos), .tuple ((rest.map parseCfgKey).map Py.encKey)] ()).1
   | _ => "bad-op"
 
 def handle (line : String) : String :=
